@@ -80,6 +80,16 @@ fn scalar_op(a: &SV, op: Bop, b: &SV) -> Ev {
         _ => Ev::Unsure,
       }
     }
+    (SV::F32(x), SV::F32(y)) => {
+      let (x, y) = (f32::from_bits(*x), f32::from_bits(*y));
+      match op {
+        Bop::Add => Ev::Val(SV::F32(canon_f32(x + y))),
+        Bop::Sub => Ev::Val(SV::F32(canon_f32(x - y))),
+        Bop::Mul => Ev::Val(SV::F32(canon_f32(x * y))),
+        Bop::Div => Ev::Val(SV::F32(canon_f32(x / y))),
+        _ => Ev::Unsure,
+      }
+    }
     (SV::Int(k1, x), SV::Int(k2, y)) if k1 == k2 => match op {
       Bop::Add | Bop::Sub | Bop::Mul | Bop::Div => match int_op(*k1, *x, op, *y) {
         Ok(v) => Ev::Val(SV::Int(*k1, v)),
@@ -95,6 +105,7 @@ fn scalar_op(a: &SV, op: Bop, b: &SV) -> Ev {
     },
     // different numeric kinds, or number vs string: no implicit conversion in formulas
     (SV::F64(_), SV::Int(..)) | (SV::Int(..), SV::F64(_)) | (SV::Int(..), SV::Int(..))
+    | (SV::F32(_), SV::F64(_)) | (SV::F64(_), SV::F32(_)) | (SV::F32(_), SV::Int(..)) | (SV::Int(..), SV::F32(_))
       if matches!(op, Bop::Add | Bop::Sub | Bop::Mul | Bop::Div) => Ev::Fail("kind-mismatch".into()),
     (SV::F64(_), SV::Str(_)) | (SV::Str(_), SV::F64(_)) | (SV::Int(..), SV::Str(_)) | (SV::Str(_), SV::Int(..))
       if matches!(op, Bop::Add | Bop::Sub | Bop::Mul | Bop::Div) => Ev::Fail("kind-mismatch".into()),
@@ -198,7 +209,7 @@ pub fn eval(e: &Expr, s: &MStore) -> Ev {
   match e {
     // a matrix literal of a signed integer kind has no spelling the pinned Mech accepts
     // (`[1<i64> 2<i64>]` is rejected by concatenation), so the model does not predict it
-    Expr::Lit(SV::Mat(ek, ..)) if NK::from_name(ek).map(|k| k.is_signed()).unwrap_or(false) => Ev::Unsure,
+    Expr::Lit(SV::Mat(ek, ..)) if ek == "f32" || NK::from_name(ek).map(|k| k.is_signed()).unwrap_or(false) => Ev::Unsure,
     Expr::Lit(v) => Ev::Val(v.clone()),
     Expr::Var(n) => match var(n) { Ok(v) => Ev::Val(v), Err(e) => e },
     Expr::VarOp(n, op, lit) => match var(n) { Ok(v) => binop(&v, *op, lit), Err(e) => e },
@@ -225,6 +236,11 @@ pub fn eval(e: &Expr, s: &MStore) -> Ev {
         Some((_, k, d)) => Ev::Val(SV::Mat(k.clone(), rows, 1, d.clone())),
         None => Ev::Fail("no-such-column".into()),
       },
+      Ok(_) => Ev::Unsure,
+      Err(e) => e,
+    },
+    Expr::MapGet(n, k) => match var(n) {
+      Ok(SV::Map(kv)) => match kv.iter().find(|(kk, _)| kk == k) { Some((_, v)) => Ev::Val(v.clone()), None => Ev::Fail("no-such-key".into()) },
       Ok(_) => Ev::Unsure,
       Err(e) => e,
     },
@@ -263,6 +279,7 @@ fn annotate(v: &SV, annot: &str) -> Option<SV> {
       SV::F64(b) => {
         let x = f64::from_bits(*b);
         if nk == NK::F64 { return Some(v.clone()); }
+        if nk == NK::F32 { return if ((x as f32) as f64) == x { Some(SV::F32(canon_f32(x as f32))) } else { None }; }
         if nk.is_float() { return None; }
         let (lo, hi) = nk.int_range()?;
         if x == x.trunc() && x >= lo as f64 && x <= hi as f64 && x.abs() < 1e15 { Some(SV::Int(nk, x as i128)) } else { None }
@@ -595,6 +612,30 @@ impl Model {
             self.verdict(Must::Ok, After::Store(st), combo)
           }
           other => self.either_unknown(name, "element-of-non-tuple", format!("tuple-assign|{}", class_of(other))),
+        }
+      }
+
+      Op::MapAssign { name, key, e } => {
+        let combo0 = format!("map-assign|{}", e.form());
+        let val = match eval(e, s) {
+          Ev::Fail(f) => { let mut v = self.must_err(&format!("f4-source-fails:{}", f), combo0); if f == "undefined-var" { v.err_names = vec!["UndefinedVariable"]; } return v; }
+          Ev::Unsure => return if s.get(name).map(|b| b.mutable).unwrap_or(false) { self.either_unknown(name, "unsure-source", combo0) } else { self.either_same("unsure-source", combo0) },
+          Ev::Val(v) => v,
+        };
+        if let Some(v) = self.writable(name, &combo0) { return v; }
+        let cur = &s[name];
+        match &cur.v {
+          SV::Map(kv) if !kv.is_empty() => {
+            let combo = format!("map-assign|map:{}->{}|{}:{}", kv[0].0.kind_tag(), kv[0].1.kind_tag(), e.form(), src_form(&val));
+            if kv[0].0.kind_tag() != key.kind_tag() || kv[0].1.kind_tag() != val.kind_tag() { return self.either_unknown(name, "f6-source-kind", combo); }
+            let mut nkv = kv.clone();
+            match nkv.iter().position(|(k, _)| k == key) { Some(i) => nkv[i].1 = val.clone(), None => nkv.push((key.clone(), val.clone())) }
+            nkv.sort();
+            let mut st = s.clone();
+            st.get_mut(name).unwrap().v = SV::Map(nkv);
+            self.verdict(Must::Ok, After::Store(st), combo)
+          }
+          other => self.either_unknown(name, "key-of-non-map", format!("map-assign|{}", class_of(other))),
         }
       }
 
